@@ -48,7 +48,7 @@ CHECKS = {
                 text='From every state reached by the adversarial exploration (operator never stops) the environment switches '
                      'to a cooperative peer (policies: refuse the next j connects, then cooperate) and the run must reconnect '
                      'within idle-hold after each refusal, reach Established within idle_hold + one connection cycle, stay '
-                     'Established for 3 hold times with no NOTIFICATION, and offer an OPEN byte-identical to a freshly booted agent.',
+                     'Established for 3 hold times with no NOTIFICATION, and offer an OPEN byte-identical to a freshly booted agent. Plus long runs against peers that refuse 130 times, answer slowly (SYN-ACK later than the idle-hold time) or lose the first SYN.',
                 ref='7 C02', note=E1_NOTE),
     'C03': dict(level='model_checking', engine='E1',
                 technique='exhaustive schedule enumeration (arrival gaps at the deadlines, all same-instant tie orders) on the real timers under a virtual clock',
@@ -56,7 +56,7 @@ CHECKS = {
                      'below / at / just above H/3 and H, both orders of an arrival that coincides with an expiry and every '
                      'order of same-instant timer expiries are executed on the real objects; timestamped monitors check the '
                      'H/3 keepalive bound, no early close, expiry exactly at last arrival + H with NOTIFICATION(4), H=0 '
-                     'silence, and the 240 s OpenSent limit.',
+                     'silence, and the 240 s OpenSent limit. Plus the same schedules with RIB maintenance on, and against a capability-rich peer whose arrivals include End-of-RIB markers.',
                 ref='7 C03', note=E1_NOTE),
     'C05': dict(level='model_checking', engine='E1',
                 technique='exhaustive enumeration of configurations x session histories x peer OPEN variants executed on the real session objects',
@@ -100,14 +100,14 @@ CHECKS = {
                 text='All sequences of received / REST-sent announce, withdraw, re-announce (same and different attributes) and session-drop '
                      'operations over a small prefix / flowspec / VPNv4 pool up to the stated depth, de-duplicated on (model state, last '
                      'operation), executed on the real BGP object with rib=True; after every operation Adj-RIB-In/Out and the per-family '
-                     'received/sent version increments read back through the REST endpoints must equal the dictionary model\'s.',
+                     'received/sent version increments read back through the REST endpoints must equal the dictionary model\'s. Plus a request the table can take only in part, and two sends in two worker threads / a send and a received UPDATE with RIB maintenance on (E5).',
                 ref='7 C19', note=E1_NOTE),
     'C14': dict(level='exploration', engine='E3',
                 technique='small-scope exhaustive input-shape enumeration against a reference OPEN/NOTIFICATION/ROUTE-REFRESH codec',
                 text='Round trip through the agent\'s own encoder and decoder over every capability subset the encoder supports x AS / hold '
                      '/ identifier boundaries (every hold value), and decoding of an independent encoder\'s OPEN for every subset of 12 '
                      'capability kinds, permutations, rotations, unknown codes and 3 packagings; all 65536 NOTIFICATION code/subcode '
-                     'pairs x data lengths; ROUTE-REFRESH for all AFI/SAFI x both types; KEEPALIVE.',
+                     'pairs x data lengths; ROUTE-REFRESH for all AFI/SAFI x both types; KEEPALIVE. Plus: the AS-number width of the session must follow from the two OPENs and survive an ignored second OPEN; capability sets over 255 octets; E5 pairs of the message constructors.',
                 ref='7 C14', note=E3_NOTE),
     'C11': dict(level='exploration', engine='E3',
                 technique='exhaustive short-input and TLV-shape enumeration per decoder entry point under a deterministic interpreter-step budget',
@@ -115,7 +115,7 @@ CHECKS = {
                      'override sweeps of every registered link-state TLV, BGP-LS NLRI descriptors, Prefix-SID TLVs, attribute headers '
                      'and OPEN optional parameters, on all single-octet mutations / truncations of the unit-test corpus and on inputs '
                      'padded to 4096 octets; each call must finish within 300 + 60*len interpreter steps of yabgp code, and Update.parse '
-                     'must return a result object whenever its two length fields are in range.',
+                     'must return a result object whenever its two length fields are in range. Plus nested TLVs with a malformed sibling at every level, PMSI tunnel identifiers built as mLDP FEC elements, the work for the same octets at the 5th and the 150th decode (all interpreter steps), and a wall-clock limit per task.',
                 ref='7 C11', note='Trusted base: the sys.monitoring step meter (function entries + backward jumps of code under /repo; library code not metered), '
                      'the enumerated input menus. No random inputs.'),
     'C17': dict(level='exploration', engine='E3',
@@ -133,7 +133,7 @@ CHECKS = {
                      'seeds, framed correctly as every message type and as the value of 10 attribute types, is delivered in every session '
                      'state that can receive bytes (incl. a hold-time-0 and a second session): no escaping exception, no step-budget overrun, '
                      'at most one report per message, an UPDATE body never disturbs an Established session, the known-good suite behind it is '
-                     'handled as by a pristine agent, and a closed session recovers under the cooperative continuation.',
+                     'handled as by a pristine agent, and a closed session recovers under the cooperative continuation. Plus every message of the session alphabet in every state followed by the recovery continuation, a state with debug logging on, frames of unassigned types, and hostile input inside the window of a held REST write (afterwards only reconnect timers may be armed).',
                 ref='7 C10', note=E1_NOTE),
     'C06': dict(level='exploration', engine='E3',
                 technique='small-scope exhaustive input-shape enumeration: construct -> parse round trip against the reference\'s expected decoded form',
@@ -155,7 +155,7 @@ CHECKS = {
                 text='Every input of the C06 / C07 pools and of the construct-only pools (SR-TE policy NLRI, tunnel encapsulation, PMSI tunnel, '
                      'IPv6 flowspec, NOTIFICATION, ROUTE-REFRESH, KEEPALIVE, OPEN) is handed to the agent\'s constructors; whatever bytes come '
                      'back, and every message written by real sessions, is walked by a decoder-independent structural walker (lengths nest '
-                     'exactly, flag categories, extended-length bit, ceil(len/8) prefixes, <= 4096 octets).',
+                     'exactly, flag categories, extended-length bit, ceil(len/8) prefixes, <= 4096 octets). Plus: every family representative, OPEN, NOTIFICATION, ROUTE-REFRESH and a rich REST request with ONE value replaced by a value of the wrong shape - what is built after all must pass the walker.',
                 ref='7 C08', note=E3_NOTE),
     'C09': dict(level='exploration', engine='E3',
                 technique='small-scope exhaustive enumeration: an independent RFC encoder with every legal encoding variant switched on, decoded by the agent; single-field corruptions for the error half',
@@ -163,14 +163,14 @@ CHECKS = {
                      'flag, trailing prefix bits, attribute order, split AS_PATH, other AS width, add-path identifiers, AS4_PATH / '
                      'AS4_AGGREGATOR), all switch combinations x all permutations of 5 attributes on representative messages; the agent must '
                      'decode exactly the encoded values with no error. Error half: every listed single-field malformation must yield an '
-                     'error and no value for the corrupted attribute, also through dataReceived.',
+                     'error and no value for the corrupted attribute, also through dataReceived. Plus the Partial bit on optional transitive attributes, trailing bits in every family, traffic-class bits in labels; the instance / session probe runs first.',
                 ref='7 C09', note=E3_NOTE),
     'C15': dict(level='exploration', engine='E3',
                 technique='exhaustive pair / triple enumeration over per-kind element pools with a purely differential oracle D(a||b) == D(a) ++ D(b)',
                 text='For 29 list kinds (prefix lists, labeled / VPN / EVPN routes, flowspec rules, communities, cluster ids, AS_PATH segments, OPEN '
                      'capabilities in both packagings, BGP-LS NLRIs / descriptors / node sub-TLVs / attribute TLVs, Prefix-SID TLVs) all ordered '
                      'pairs of well-formed element encodings covering every element width, triples for small pools and a || unknown || b for the '
-                     'TLV kinds; plus all orders of every <= 5-subset of a 13-attribute UPDATE. No reference decoder is involved.',
+                     'TLV kinds; plus all orders of every <= 5-subset of a 13-attribute UPDATE. No reference decoder is involved. Plus: the decoders keep nothing - three passes over the unit-test UPDATEs and all their mutations, every registered link-state TLV as a container before and after malformed sub-TLVs.',
                 ref='7 C15', note=E3_NOTE),
 }
 
